@@ -740,3 +740,38 @@ func varSurvives(w *siteWalker, name string) bool {
 	}
 	return false
 }
+
+// VarUsedInsideLiteral reports whether the variable occurs inside a list / input-object literal
+// of some field or directive argument (as opposed to being the whole argument value).
+func VarUsedInsideLiteral(doc *Doc, name string) bool {
+	found := false
+	var walk func(sels []*Sel)
+	checkArgs := func(args []*ArgVal) {
+		for _, a := range args {
+			if a.Val.Kind != VVar && valUsesVar(a.Val, name) {
+				found = true
+			}
+		}
+	}
+	walk = func(sels []*Sel) {
+		for _, x := range sels {
+			switch {
+			case x.Field != nil:
+				checkArgs(x.Field.Args)
+				for _, d := range x.Field.Dirs {
+					checkArgs(d.Args)
+				}
+				walk(x.Field.Sel)
+			case x.Inline != nil:
+				walk(x.Inline.Sel)
+			}
+		}
+	}
+	for _, op := range doc.Ops {
+		walk(op.Sel)
+	}
+	for _, f := range doc.Frags {
+		walk(f.Sel)
+	}
+	return found
+}
